@@ -4,7 +4,7 @@ from harness import gen_seq
 from runner import Case, CaseSet
 
 ID = 'C09'
-OBLIGATIONS = ['Props/C09.v', 'Props/Tie/titration_tie.v', 'Props/Tie/tables_tie.v', 'Props/Tie/minipy_pi_tie.v']
+OBLIGATIONS = ['Props/C09.v', 'Props/Tie/titration_tie.v', 'Props/Tie/tables_tie.v', 'Props/Tie/minipy_pi_tie.v', 'Props/Tie/minipy_titration_tie.v']
 RULE = ('(getters are asked again, after get_isoelectric_point, at every pH its loop visited) sequences: random classes (N 1..60), only-basic, only-acidic, only-R, no-titratable, the 20 singletons, and every '
         'multiset of titratable residues of size <= 3 (thorough 4); pH grid {0, 14, each pKa, pKa +- 1, random}; getters get_FCR / '
         'get_NCPR / get_mean_net_charge / get_fraction_expanding with pH, get_isoelectric_point (its charge_at_pH calls are recorded '
